@@ -38,6 +38,7 @@ type Contract struct {
 	Uses     []string             // lemmas assumed in this function's VCs
 	FnParamReq map[string][]*Clause // obligations at every call of a function-typed parameter
 	CallSites  map[string][]*Clause // obligations at every call of a named function
+	FnParamPure map[string]bool     // function-typed parameters/fields assumed to be effect-free
 	Trusted  bool // contract assumed at call sites, body not verified
 	Pure     bool
 	BV       bool
@@ -423,6 +424,14 @@ func (e *Engine) LoadContractFile(file, pkgPath string) error {
 				// fnparam <name> ensures <expr>
 				pn, r1 := splitWord(rest)
 				w, r2 := splitWord(r1)
+				if w == "pure" {
+					// assumed: calling this function value has no effect on the heap
+					if cur.FnParamPure == nil {
+						cur.FnParamPure = map[string]bool{}
+					}
+					cur.FnParamPure[pn] = true
+					break
+				}
 				if w != "ensures" && w != "requires" {
 					return fail(fmt.Errorf("fnparam <name> ensures|requires <expr>"))
 				}
